@@ -30,7 +30,7 @@ from ..core import Ctx, MachineryError, chunks, load_known_findings
 
 BAD, CYCLIC = [0], [0, 0]
 IFACE = 99          # MRO.tla IFACE: the member as declared by the interface I
-INVARIANTS = ["MroIsC3", "InconsistentReported", "RefLaws", "FindIsLookup", "InheritedTable", "OverridesNote",
+INVARIANTS = ["MroIsC3", "InconsistentReported", "RefLaws", "FindIsLookup", "InheritedTable", "PageTables", "OverridesNote",
               "SourcesAreOverridden", "DocIsInherited",
               "EarlyIsLookupOrKF"]
 KF_EARLY = "early-lookup-depth-first"
@@ -279,7 +279,11 @@ def observe_batch(batch: List[Tuple[int, Dict[str, Any]]]) -> List[Dict[str, Any
     from pydoctor import model, epydoc2stan
     from pydoctor.stanutils import flatten_text
     from pydoctor.templatewriter import util
-    from pydoctor.templatewriter.pages import get_override_info
+    from pydoctor.templatewriter.pages import get_override_info, ClassPage
+    from pydoctor.templatewriter import TemplateLookup
+    from twisted.web.template import tags as _tags
+    import importlib.resources as _ir
+    lookup_ = TemplateLookup(_ir.files("pydoctor.themes") / "base")
 
     class S(model.System):
         def __init__(self, *a: Any, **k: Any) -> None:
@@ -402,6 +406,15 @@ def observe_batch(batch: List[Tuple[int, Dict[str, Any]]]) -> List[Dict[str, Any
                 text = pd.to_node().astext().strip() if pd is not None and pd.has_body else ""
                 m_ = re.match(rf"^doc of (K|I){h}(?:_(\d+))?$", text)
                 o_render[c - 1] = 0 if not text else (-1 if not m_ else (IFACE if m_.group(1) == "I" else int(m_.group(2))))
+        # the class page: one "Inherited from X" table per entry of ClassPage.baseTables (X = first class named)
+        o_page: List[List[int]] = [[] for _ in range(n)]
+        if any(m != "absent" for m in rec["member"]):
+            byname = {o.name: c for c, o in objs.items() if o is not None}
+            for c in range(1, n + 1):
+                if isinstance(objs[c], model.Class):
+                    for t in ClassPage(objs[c], lookup_).baseTables(None, _tags.div):
+                        nm = flatten_text(t.slotData["baseName"]).split(" (via")[0].strip()
+                        o_page[c - 1].append(byname.get(nm, -1))
         o_early = [0] * n
         for c in early_classes(rec):
             modname = where[c][0]
@@ -415,7 +428,7 @@ def observe_batch(batch: List[Tuple[int, Dict[str, Any]]]) -> List[Dict[str, Any
                 o_early[c - 1] = ix(bo[0].parent) if (len(bo) == 1 and bo[0] is not None) else -1
                 if o_early[c - 1] > 0 and [id(y) for y in x.mro()] != [id(x), id(bo[0])]:
                     o_early[c - 1] = -1
-        out.append({"h": h, "early": o_early, "render": o_render, "mro": o_mro, "warn": o_warn, "find": o_find, "src": o_src, "doc": o_doc,
+        out.append({"h": h, "early": o_early, "render": o_render, "page": o_page, "mro": o_mro, "warn": o_warn, "find": o_find, "src": o_src, "doc": o_doc,
                     "doctext": o_doctext, "inherited": o_inh, "overrides": o_ovr, "first": o_first, "present": o_present,
                     "where": {str(c): list(w) for c, w in where.items()}})
     return out
@@ -538,6 +551,8 @@ def evaluate_case(rec: Dict[str, Any], obs: Dict[str, Any]) -> Tuple[List[Tuple[
             if c in early_classes(rec) and obs["early"][i] != rec["find_ref"][i]:
                 failed.append(("EarlyAliasIsLookup" if rec["early"] == "alias" else "EarlyBaseIsLookup", c,
                                rec["find_ref"][i], obs["early"][i]))
+            if obs["page"][i] != rec["page_ref"][i]:
+                failed.append(("PageTables", c, rec["page_ref"][i], obs["page"][i]))
             if rec["member"][i] != "absent" and not nested:
                 # an interface declaration is not on the MRO: it may only follow every definition along it
                 if [x for x in obs["src"][i] if x != IFACE] != rec["src_ref"][i] or IFACE in obs["src"][i][:-1]:
@@ -574,6 +589,8 @@ def evaluate_case(rec: Dict[str, Any], obs: Dict[str, Any]) -> Tuple[List[Tuple[
             drift.append(("rendered_docstring", c, rec["doc_pd"][i], obs["render"][i]))
         if obs["inherited"][i] != rec["inh_pd"][i]:
             drift.append(("inherited_table", c, rec["inh_pd"][i], obs["inherited"][i]))
+        if obs["page"][i] != rec["page_pd"][i]:
+            drift.append(("page_tables", c, rec["page_pd"][i], obs["page"][i]))
         if not nested and obs["overrides"][i] != rec["ovr_pd"][i]:
             drift.append(("overrides_note", c, rec["ovr_pd"][i], obs["overrides"][i]))
         if c in early_classes(rec) and obs["early"][i] != (rec["early_base_pd" if nested else "early_pd"][i] or -1):
@@ -591,9 +608,9 @@ def judge_case(ctx: Ctx, rec: Dict[str, Any], obs: Dict[str, Any], origin: str) 
         ctx.violation({"invariant": inv, "origin": origin,
                        "failed": [{"invariant": a, "class": b, "expected": e, "observed": o} for a, b, e, o in failed],
                        "case": {k: rec[k] for k in ("n", "bases", "member", "born", "early", "lay") if k in rec} | {"layout": rec.get("layout"), "h": obs["h"]},
-                       "reference": {"c3": rec["c3"], "own": rec["own"], "find_ref": rec["find_ref"], "inh_ref": rec["inh_ref"], "ovr_ref": rec["ovr_ref"],
+                       "reference": {"c3": rec["c3"], "own": rec["own"], "find_ref": rec["find_ref"], "inh_ref": rec["inh_ref"], "ovr_ref": rec["ovr_ref"], "page_ref": rec["page_ref"],
                                      "src_ref": rec["src_ref"], "doc_ref": rec["doc_ref"]},
-                       "observed": {k: obs[k] for k in ("mro", "warn", "find", "src", "doc", "inherited", "overrides", "early", "render")},
+                       "observed": {k: obs[k] for k in ("mro", "warn", "find", "src", "doc", "inherited", "overrides", "early", "render", "page")},
                        "model": {"early_pd": rec.get("early_pd"), "early_base_pd": rec.get("early_base_pd"), "late": rec.get("late")},
                        "key": f"{origin}:{sorted(set(a for a, _, _, _ in failed))}:{rec['bases']}:{rec['member'] if origin != 'enum' else ''}"[:300]})
     if drift and (not failed or any(d[0] == "early_lookup" for d in drift)):
@@ -944,7 +961,7 @@ def replay(ctx: Ctx, path: str) -> int:
     rec = {"n": case["n"], "bases": case["bases"], "member": case["member"], "born": case["born"], **w["reference"],
            # model fields are irrelevant for the verdict
            "mro": w["observed"]["mro"], "warn": w["observed"]["warn"], "find_pd": w["observed"]["find"],
-           "src_pd": w["observed"]["src"], "doc_pd": w["observed"]["doc"], "inh_pd": w["observed"]["inherited"],
+           "src_pd": w["observed"]["src"], "doc_pd": w["observed"]["doc"], "inh_pd": w["observed"]["inherited"], "page_pd": w["observed"].get("page", []),
            "ovr_pd": w["observed"]["overrides"], "early_pd": w["observed"].get("early", [])}
     if case.get("early"):
         rec["early"] = case["early"]
